@@ -246,7 +246,8 @@ def check_properties(ctx, pid=None):
     f = "theories/Properties_%s.v" % pid
     src = strip_coq_comments(open(os.path.join(COQ, f)).read())
     theorems = re.findall(r"^\s*(?:Theorem|Corollary)\s+([A-Za-z0-9_']+)", src, re.M)
-    ctx.coverage["obligations"] = len(theorems)
+    ctx.coverage["obligations"] += len(theorems)       # a check may re-check several property files (e.g. its own + Properties_PANOC.v)
+    ctx.coverage.setdefault("property_files", []).append(f)
     # dependencies
     vo = f[:-2] + ".vo"
     try:
@@ -255,10 +256,10 @@ def check_properties(ctx, pid=None):
         pass
     rc, log = coq_make([vo], keep_going=True)
     cmd = "cd %s && make %s   # = coqc %s %s (after its dependencies)" % (COQ, vo, COQ_ARGS, f)
-    ctx.coverage["checker_cmd"] = cmd
+    ctx.coverage["checker_cmd"] = (ctx.coverage["checker_cmd"] + " ; " if ctx.coverage["checker_cmd"] else "") + cmd
     axioms = set()
     if rc == 0:
-        ctx.coverage["discharged"] = len(theorems)
+        ctx.coverage["discharged"] += len(theorems)
         # parse Print Assumptions output ("Axioms:" blocks; names start in column 0)
         in_ax = False
         for line in log.split("\n"):
@@ -274,13 +275,12 @@ def check_properties(ctx, pid=None):
                 else:
                     in_ax = False
         n_closed = log.count("Closed under the global context")
-        ctx.coverage["closed_under_global_context"] = n_closed
+        ctx.coverage["closed_under_global_context"] = ctx.coverage.get("closed_under_global_context", 0) + n_closed
     else:
         # how many theorems were accepted before the failure: compile a truncated copy theorem by theorem is
         # expensive; report 0 discharged for the failing file and name the failing location
         m = re.search(r'File "([^"]+)", line (\d+)', log)
         where = "%s:%s" % (m.group(1), m.group(2)) if m else "?"
-        ctx.coverage["discharged"] = 0
         failing = None
         if m and os.path.basename(m.group(1)).startswith("Properties_"):
             ln = int(m.group(2))
@@ -290,7 +290,8 @@ def check_properties(ctx, pid=None):
                 if mm:
                     failing = mm.group(1); break
         ctx.broke("proof", failing or where, log)
-    ctx.coverage["trusted_base"] = sorted(axioms) + ["Coq 8.16.1 kernel + vm_compute"]
+    prev = [a for a in ctx.coverage.get("trusted_base", []) if a != "Coq 8.16.1 kernel + vm_compute"]
+    ctx.coverage["trusted_base"] = sorted(set(prev) | axioms) + ["Coq 8.16.1 kernel + vm_compute"]
     return rc == 0
 
 def coq_eval(name, body, timeout=900):
